@@ -55,7 +55,7 @@ impl Prop for C05 {
     fn rule(&self) -> String {
         "case = (Quake version, player-count stratum, name stratum); within a case every status reply within <= bound field \
          deviations of the default (both spellings of each aliased key present/absent/both, optional version, extra variables, \
-         variable order rotated, 0..64 player lines, quoted/unquoted names, optional address, optional trailing NUL) is sent by \
+         variable order rotated, 0..64 player lines, quoted/unquoted names, optional address, the reply ending after the last line feed / with a NUL after it / directly after the last line without a line feed) is sent by \
          the reference server and the real query must return name/map/max/version, one player per line with that line's \
          fields, players_online = number of lines and all other variables unchanged. distinct_nontrivial = distinct (outcome \
          class, wire-log shape) pairs"
